@@ -421,7 +421,8 @@ def render_resource(res, L):
             if e[0] == "comment" and e[1] == 1 and res[i + 1][0] != "comment":
                 nb = max(nb, 2)   # a '#' comment attaches unless two blank lines... (one blank line is enough per grammar)
             for _ in range(nb):
-                out += L.eol
+                # a blank line may carry spaces (still a blank line: comments must not attach across it)
+                out += ("" if L.plain else " " * L.r.choice([0, 0, 0, 1, 3])) + L.eol
     if not L.final_newline and out.endswith(L.eol) and not (res and res[-1][0] == "comment" and res[-1][2][-1] == ""):
         out = out[: -len(L.eol)]
     return out, "(res%s)" % "".join(" " + s for s in sx)
